@@ -67,8 +67,11 @@ class CProcess:
                 self.p.kill()
 
 
-def _pgen(model, nsets, seed):
-    r = json.loads(run_lines(CELLRUN, ['PGEN %s %d %d' % (model, nsets, seed)], env=GOENV)[0])
+def _pgen(model, nsets, seed, dims=None):
+    line = 'PGEN %s %d %d' % (model, nsets, seed)
+    if dims:
+        line += ' ' + ','.join(map(str, dims))
+    r = json.loads(run_lines(CELLRUN, [line], env=GOENV)[0])
     return r['extra']
 
 
@@ -173,6 +176,7 @@ def cabi_sessions(c):
         else:
             agree += 1
     stale_cov = stale_buffer_calls(c, rng, quick)
+    stale_cov.update(degenerate_table_calls(c, rng, quick))
     return {**stale_cov, 'cabi_sessions': n_sessions, 'cabi_session_calls': len(calls), 'cabi_session_hot_starts': hot,
             'cabi_session_calls_agree': agree, 'cabi_session_both_crash': both_crash,
             'cabi_session_cdriver_processes': proc.starts,
@@ -257,3 +261,58 @@ def stale_buffer_calls(c, rng, quick):
     return {'cabi_stale_buffer_calls': len(calls), 'cabi_stale_buffer_calls_agree': agree, 'cabi_stale_buffer_both_fail': skipped,
             'cabi_' + 'outputs_never_written': cov['outputs_never_written_by_the_kernel'],
             'cabi_' + 'outputs_written_only_on_some_inputs': cov['outputs_written_only_on_some_inputs']}
+
+
+# table sizes per parameter set: one row, two rows, all sets the same size, the largest size only in the
+# last set, sizes 1 and n mixed across the sets
+TABLE_SIZE_PATTERNS = [[1], [2], [1, 1], [2, 2, 2], [3, 3], [2, 2, 4], [1, 1, 3], [1, 3], [3, 1], [1, 4, 1], [4, 1, 1], [2, 1]]
+
+
+def degenerate_table_calls(c, rng, quick):
+    """The dimensioned models (table-valued parameters) through the C entry point with DEGENERATE table
+    sizes, call for call against the Go API (owrun V), INCLUDING failure modes: both fail = agree; one
+    side fails, or the numbers differ = violation.  Cold and hot starts, one cdriver process."""
+    cat = json.loads(run_lines(CELLRUN, ['DESC'], env=GOENV)[0])['extra']
+    dimensioned = sorted(m for m in cat if cat[m].get('dimensions'))
+    proc = CProcess()
+    calls = []
+    for m in dimensioned:
+        for rep in range(1 if quick else 4):
+            for pat in TABLE_SIZE_PATTERNS:
+                nPS = len(pat)
+                g = _pgen(m, nPS, rng.randrange(1 << 30), pat)
+                N = max(nPS, rng.choice([1, 2, 3]))
+                T = rng.choice([3, 6])
+                nI, nO, nS = g['n_inputs'], g['n_outputs'], g['state_width']
+                nIS = rng.choice([1, N])
+                for init in (1, 0):
+                    ins = [f2h(rng.choice([0.0, rng.random() * 10])) for _ in range(nIS * nI * T)]
+                    states = ['0' * 16] * (N * nS)
+                    hdr = [m, nIS, nI, T, g['nP'], nPS, N, nS, N, nO, T, init]
+                    line = ' '.join(map(str, hdr)) + ' ' + ' '.join(ins + (g['p_hex'] or []) + states)
+                    calls.append((m, pat, init, line, proc.call(line)))
+    proc.close()
+    import hslib
+    res_go = hslib.run_filtered(OWRUN, ['V ' + x[3] for x in calls], 'CRASH', env=GOENV)
+    agree = both_fail = 0
+    sizes = {}
+    fail_by = {}
+    for (m, pat, init, line, rc), rg in zip(calls, res_go):
+        c.count(('cabi-tables', m, tuple(pat), init, line[:60]), nontrivial=True)
+        sizes.setdefault(m, set()).add(tuple(pat))
+        bad_c, bad_g = (rc is None or not rc.startswith('OK')), not rg.startswith('OK')
+        if bad_c and bad_g:
+            both_fail += 1
+            fail_by[m] = fail_by.get(m, 0) + 1
+            continue
+        if bad_c or bad_g or rc.split(' C ')[0] != rg.split(' C ')[0] or rc.endswith(' C 0'):
+            c.violation('cabi_tables_%s_%s.json' % (m, '_'.join(map(str, pat))), {
+                'kind': 'C entry point differs from the Go API for a dimensioned model with degenerate table sizes',
+                'model': m, 'table_sizes_per_parameter_set': pat, 'initStates': init, 'case': line[:3000],
+                'c_abi': (rc or 'process died (panic inside the library)')[:400], 'go_api': rg[:400],
+                'replay': 'echo "<case>" | harness/bin/cdriver out/libopenwater.so    vs    echo "V <case>" | harness/bin/owrun'})
+        else:
+            agree += 1
+    return {'cabi_degenerate_table_calls': len(calls), 'cabi_degenerate_table_calls_agree': agree,
+            'cabi_degenerate_table_calls_both_fail': both_fail, 'cabi_degenerate_table_both_fail_by_model': fail_by,
+            'cabi_degenerate_table_sizes': {m: sorted(map(list, v)) for m, v in sizes.items()}}
